@@ -11,6 +11,7 @@ This is dataflow over a term domain, not symbolic execution: no constraints are 
 """
 import ast
 import copy as _copy
+import re
 
 from .loader import AnalysisError, ClassInfo, FunctionInfo, dotted
 
@@ -246,6 +247,7 @@ class State(object):
         self.raised = None   # text of raised exception
         self.events = []     # ordered mixed events: ('call'|'store'|'yield'|'raise'|'return'|'del', ...)
         self.hashes = []     # (alg, items, lineno) for every digest taken on this path
+        self.bound = {}      # canonical bound-variable name ($k) -> text of the collection it ranges over
 
     def fork(self):
         s = State()
@@ -256,6 +258,7 @@ class State(object):
         s.facts = list(self.facts)
         s.events = list(self.events)
         s.hashes = list(self.hashes)
+        s.bound = dict(self.bound)
         s.ret = self.ret
         s.raised = self.raised
         return s
@@ -358,6 +361,17 @@ class Frame(object):
         self.fi = fi
         self.module = fi.module
         self.depth = depth
+        # bound variables of summarised loops / comprehensions get canonical names $1, $2, ... (source order of the binding
+        # construct within the function; $<depth>.<k> inside an inlined callee); State.bound maps the name to its collection
+        self.bindex = {}
+        k = 0
+        for n in _preorder(fi.node):
+            if isinstance(n, (ast.For, ast.While)):
+                k += 1
+                self.bindex[id(n)] = k
+            elif isinstance(n, ast.comprehension):
+                k += 1
+                self.bindex[id(n)] = k
 
     # ------------------------------------------------------------------ statements
     def block(self, stmts, st):
@@ -587,10 +601,15 @@ class Frame(object):
             outs = fin
         return outs
 
-    def _iter_values(self, node, st):
+    def _iter_values(self, node, st, bname=None):
         """Return a list of Vals if the iterable is statically enumerable, else None."""
         itv = self.ev(node, st)
         t = render(itv)
+        if isinstance(itv, EachV) and len(itv.elems) == 1 and isinstance(itv.elems[0], Sym) and itv.elems[0].text == itv.var \
+                and bname is not None and re.match(r'^\$[\d.]+$', itv.var):
+            # iterating a (filtered) identity comprehension is iterating the underlying collection (with the filter)
+            t = re.sub(re.escape(itv.var) + r'(?![\d_])(?!\.\d)', bname, itv.coll)
+            return None, t
         if t in self.sc.unroll:
             return self.sc.unroll[t], t
         if isinstance(itv, ListV) and len(itv.elems) <= 12:
@@ -600,7 +619,7 @@ class Frame(object):
         return None, t
 
     def st_For(self, node, st):
-        vals, colltext = self._iter_values(node.iter, st)
+        vals, colltext = self._iter_values(node.iter, st, self._bname(node))
         if vals is not None:
             cur = [(st, 'normal')]
             for v in vals:
@@ -624,7 +643,7 @@ class Frame(object):
                 else:
                     res.append((s, status))
             return res
-        return self._summarise_loop(node, st, colltext, self.text(node.target, st), node.target)
+        return self._summarise_loop(node, st, colltext, None, node.target)
 
     def st_While(self, node, st):
         d = self.decide(node.test, st)
@@ -632,10 +651,15 @@ class Frame(object):
             return self.block(node.orelse, st)
         return self._summarise_loop(node, st, 'while ' + self.text(node.test, st), '_', None)
 
+    def _bname(self, node):
+        k = self.bindex.get(id(node), 0)
+        return '$%d' % k if self.depth == 0 else '$%d.%d' % (self.depth, k)
+
     def _summarise_loop(self, node, st, colltext, vartext, target):
         before = st.fork()
         if target is not None:
-            self._assign_loopvars(target, st, node)
+            vartext = self._assign_loopvars(target, st, node, self._bname(node))
+            st.bound[self._bname(node)] = colltext.split(' if ')[0]       # the collection; a fused filter stays in the EACH text
         nyield = len(st.yields)
         body = self.block(node.body, st)
         outs = []
@@ -697,14 +721,18 @@ class Frame(object):
         outs.extend(self.block(node.orelse, base))
         return outs
 
-    def _assign_loopvars(self, target, st, node):
+    def _assign_loopvars(self, target, st, node, name):
+        """Bind loop / comprehension variables to canonical names ($k[_<position>]); returns the rendered target."""
         if isinstance(target, (ast.Tuple, ast.List)):
-            for t in target.elts:
-                self._assign_loopvars(t, st, node)
-        elif isinstance(target, ast.Name):
-            st.env[target.id] = Sym(target.id, nonnull=True)
+            parts = [self._assign_loopvars(t, st, node, '%s_%d' % (name, i)) for i, t in enumerate(target.elts)]
+            return '(%s)' % ', '.join(parts)
+        if isinstance(target, ast.Name):
+            st.env[target.id] = Sym(name, nonnull=True)
+        elif isinstance(target, ast.Starred):
+            return self._assign_loopvars(target.value, st, node, name)
         else:
-            self.assign(target, Sym(self.text(target, st)), st, node)
+            self.assign(target, Sym(name), st, node)
+        return name
 
     # ------------------------------------------------------------------ decisions
     def decide(self, test, st):
@@ -1074,18 +1102,29 @@ class Frame(object):
         s2 = st.fork()
         gens = []
         for g in node.generators:
-            it = self.text(g.iter, s2)
-            self.assign(g.target, Sym(ast.unparse(g.target)), s2, node)
-            conds = [self.text(c, s2) for c in g.ifs]
-            gens.append('for %s in %s%s' % (ast.unparse(g.target), it, ''.join(' if ' + c for c in conds)))
+            it = self._iter_values(g.iter, s2, self._bname(g))[1]
+            vt = self._assign_loopvars(g.target, s2, node, self._bname(g))
+            st.bound[self._bname(g)] = it.split(' if ')[0]
+            s2.bound[self._bname(g)] = it.split(' if ')[0]
+            conds = [self.cond_text(c, s2) for c in g.ifs]
+            gens.append((vt, it, conds))
         if isinstance(node, ast.DictComp):
+            eltv = None
             elt = '%s: %s' % (self.text(node.key, s2), self.text(node.value, s2))
         else:
-            elt = self.text(node.elt, s2)
+            eltv = self.ev(node.elt, s2)
+            elt = render(eltv)
         # calls made inside the comprehension are still call sites of this function
         for c in s2.calls[len(st.calls):]:
             st.calls.append(c)
-        return Sym('%s%s %s%s' % (br[0], elt, ' '.join(gens), br[1]))
+        for e in s2.events[len(st.events):]:
+            st.events.append(e)
+        if len(gens) == 1 and eltv is not None and br != '{}':
+            vt, it, conds = gens[0]
+            # one generator: the same summary a `for` loop appending the element would get
+            return EachV(vt, it + ''.join(' if ' + c for c in conds), [eltv])
+        gtext = ' '.join('for %s in %s%s' % (vt, it, ''.join(' if ' + c for c in conds)) for vt, it, conds in gens)
+        return Sym('%s%s %s%s' % (br[0], elt, gtext, br[1]))
 
     def ev_ListComp(self, node, st):
         return self._comp(node, st, '[]')
@@ -1439,6 +1478,9 @@ class Frame(object):
                 record(n)
                 fake = ast.Attribute(value=node.args[0], attr=args[1].value, ctx=ast.Load())
                 return self.ev_Attribute(fake, st)
+            if n in ('iter', 'list', 'tuple') and len(args) == 1 and isinstance(args[0], EachV) and not kwargs:
+                record(n)
+                return args[0]
             if n == 'reversed' and len(args) == 1 and isinstance(args[0], ListV):
                 rev = []
                 for e in reversed(args[0].elems):
@@ -1565,6 +1607,7 @@ class Frame(object):
         frame_st.stores = st.stores
         frame_st.events = st.events
         frame_st.hashes = st.hashes
+        frame_st.bound = st.bound
         fr = Frame(self.I, fi, self.depth + 1)
         outs = fr.block(fi.node.body, frame_st)
         rets = [(s, status) for s, status in outs if status in ('return', 'normal')]
@@ -1592,6 +1635,44 @@ class Frame(object):
         if all(isinstance(v, (Bytes, Const)) for v in vals) and any(isinstance(v, Bytes) for v in vals):
             return Bytes([('ALT', [as_items(v) for v in vals])])
         return Sym('ALT(%s)' % ' | '.join(texts))
+
+
+def _preorder(node):
+    yield node
+    for ch in ast.iter_child_nodes(node):
+        if isinstance(ch, (ast.FunctionDef, ast.AsyncFunctionDef, ast.ClassDef)) and ch is not node:
+            continue
+        for x in _preorder(ch):
+            yield x
+
+
+def alpha(text):
+    """Renumber the canonical bound-variable names of a rendered value in order of first appearance, so that two renderings
+    that differ only in how many binding constructs precede them in their functions compare equal."""
+    order = {}
+
+    def rep(m):
+        k = m.group(1)
+        if k not in order:
+            order[k] = '$%d' % (len(order) + 1)
+        return order[k]
+    return re.sub(r'(\$\d+(?:\.\d+)?)', rep, text)
+
+
+def expand_bound(st, text):
+    """Self-describing form of a rendered value: every bound-variable name $k is replaced by `<collection>[*]`."""
+    for _ in range(4):
+        new = re.sub(r'(\$\d+(?:\.\d+)?)(?![\d])', lambda m: ('%s[*]' % st.bound[m.group(1)]) if m.group(1) in st.bound else m.group(1), text)
+        if new == text:
+            break
+        text = new
+    return text
+
+
+def bound_over(st, coll):
+    """Canonical names of the variables that range over the collection with this text on the path (rules use this instead
+    of the source's variable names)."""
+    return sorted(k for k, v in st.bound.items() if v == coll)
 
 
 def default_inline(fi):
